@@ -7,16 +7,16 @@ V = Path(__file__).resolve().parent.parent
 CHECKS = {
     "C01": ("model_checking", "Search.tla model checking + spec->code replay (B1) + trace validation of real runs (B2)",
             "TLC exhausts every oracle (sign pattern / threshold / sizing outcome) of the four searches within the stated list sizes and shows the selected design is feasible at the returned height; every terminal behaviour is replayed into the real search classes with a physics double, so the verdict transfers to the control code; real-physics runs are validated as traces.",
-            "physics doubles replace GHE.simulate / g-function computation in B1; real physics is sampled, not exhausted; oracle ties are not judged", "5/C01"),
+            "physics doubles replace GHE.simulate / g-function computation in B1; real physics is sampled, not exhausted; oracle ties are not judged; 'over the requested horizon' is judged on real runs by a simulation that runs one month longer (horizons below two years, some ending in the month of the seasonal extreme)", "5/C01"),
     "C02": ("model_checking", "Search.tla invariants + liveness (TLC) + spec->code replay (B1)",
             "Height window, borehole cap, unmet policy, exception class and termination are invariants / a liveness property of the search model, exhaustive over caps, continue flag and oracles, transferred to the code by replaying every behaviour.",
-            "same doubles as C01; non-degenerate input means no exact-zero excess, cap >= 2, first candidate has one borehole; an empty candidate domain (spacing window without a whole row count) is valid input and must end in ValueError (F23, repaired)", "5/C02"),
+            "same doubles as C01; non-degenerate input means no exact-zero excess, cap >= 2, first candidate has one borehole; an empty candidate domain (spacing window without a whole row count) is valid input and must end in ValueError (F23, repaired); the policy and the cap are also run through the input-file entry point (5 near-square runs)", "5/C02"),
     "C05": ("model_checking", "Search.tla invariants (TLC) + TLAPS proof of the bisection loop for arbitrary list length (BisectProof.tla) bound by a TLC refinement check + spec->code replay (B1)",
             "Predecessor-fails, first-feasible-under-monotone, no-less-drilling-evaluated and root-unless-clamped are invariants over all list lengths up to 64 and all lazily chosen sign patterns; replayed into the real classes including real solve_root / brentq.",
-            "oracle ties excluded (NoTies); drilling comparison uses field-specific root heights to avoid float ties; the TLAPS proof covers the loop's natural exit, not max_iter; 2D configurations assume what Domains.tla checks of real bi-rectangle lists (first field single, list 0 long enough)", "5/C05"),
+            "oracle ties excluded (NoTies); drilling comparison uses field-specific root heights to avoid float ties; the TLAPS proof covers the loop's natural exit, not max_iter - domains that come close to the step budget (up to 300 lists x 900 candidates) are run through the real classes with a monotone excess and judged by the invariants' mirrors; 2D configurations assume what Domains.tla checks of real bi-rectangle lists (first field single, list 0 long enough)", "5/C05"),
     "C12": ("model_checking", "Search.tla invariants (TLC) + spec->code replay (B1) + output-file trace validation (B2)",
             "What hp_eft describes (lastSim) and what is returned (field, height) are state variables of the model; ReportedIsLastSim is checked in every terminal state for all four solve_root outcomes and all searches, then on the real objects.",
-            "hp_eft of the double is what simulate() last produced; summary/CSV consistency is judged on real runs (B2)", "5/C12"),
+            "hp_eft of the double is what simulate() last produced; summary/CSV consistency and the per-borehole flow (N boreholes sharing a system flow) are judged on real runs (B2)", "5/C12"),
     "C20": ("model_checking", "Search.tla flow bookkeeping + Wiring.tla forwarding table (TLC) + spec->code replay (B1) + paired real runs (B2)",
             "Every evaluation event of the model carries the system flow and per-borehole mass flow implied by the flow type and the field's count; the replay compares them with what the real retrieve_flow hands to GHE and to the g-function call for every search class. Wiring.tla is a history machine (set_design called again with another flow type / rate, setters replacing input objects): 2088 histories are replayed on the real manager and the search must be constructed from the snapshot of the last set_design.",
             "fluid density is a constant of the double in B1; real fluids in B2", "5/C20"),
